@@ -578,6 +578,52 @@ fn queries(ctx: &Ctx, tier: Tier, sch: &Schema, schema: &cedar_policy::Schema, e
                     }
                 }
             }
+            // ---- query_action with unknown principal / resource ids and unknown context ----
+            for (pt, rt) in [("User", "Doc"), ("User", "Group")] {
+                let Ok(aq) = cedar_policy::ActionQueryRequest::new(cedar_policy::PartialEntityUid::new(tn(pt), None), cedar_policy::PartialEntityUid::new(tn(rt), None), None, schema.clone()) else { continue };
+                l.transitions += 1;
+                let qres: Result<BTreeMap<String, Option<cedar_policy::Decision>>, String> = pset.query_action(&aq, &pents).map(|it| it.map(|(a, d)| (a.to_string(), d)).collect()).map_err(|e| e.to_string());
+                let got = match qres {
+                    Ok(g) => g,
+                    Err(e) => {
+                        ctx.violation("query_action:error", format!("{e}"), rep(json!({"principal_type": pt, "resource_type": rt})));
+                        continue;
+                    }
+                };
+                for a in &sch.acts {
+                    let au = Uid::new("Action", &a.id);
+                    let key = c_uid(&au).to_string();
+                    // the concrete requests of this store that complete (pt, action, rt, unknown context)
+                    let (mut n, mut any_allowed, mut all_allowed) = (0, false, true);
+                    for ri in 0..nreq {
+                        let env = &envs[si * nreq + ri];
+                        if env.req.action != au || env.req.principal.ty != pt || env.req.resource.ty != rt {
+                            continue;
+                        }
+                        n += 1;
+                        let allowed = auth.is_authorized(&env.creq, pset, ents).decision() == cedar_policy::Decision::Allow;
+                        any_allowed |= allowed;
+                        all_allowed &= allowed;
+                    }
+                    if n == 0 {
+                        continue;
+                    }
+                    l.case(hash_of(&(si, &pols[0].id, pols.len(), &a.id, pt, rt, "qa-unknown")), if any_allowed { "query_action-unknown:some-completion-allowed" } else { "query_action-unknown:no-completion-allowed" }, true);
+                    match got.get(&key) {
+                        None => {
+                            if any_allowed {
+                                ctx.violation("query_action:omits-allowed-action", format!("query_action with unknown {pt}/{rt} ids omits {key}, which is allowed for a completion"), rep(json!({"principal_type": pt, "resource_type": rt})));
+                            }
+                        }
+                        Some(Some(cedar_policy::Decision::Allow)) => {
+                            if !all_allowed {
+                                ctx.violation("query_action:definitely-allowed-but-denied", format!("query_action with unknown {pt}/{rt} ids labels {key} definitely allowed but a completion is denied"), rep(json!({"principal_type": pt, "resource_type": rt})));
+                            }
+                        }
+                        Some(_) => {}
+                    }
+                }
+            }
         }
         ctx.merge(l);
     });
